@@ -6,6 +6,7 @@ import numpy as np
 
 PROPERTY = "C11"
 LEVEL = "exploration"
+OPTIMIZED_SAMPLE = (6, 30)  # cases repeated under python -O (quick, thorough)
 JOBS = 16
 CASE_TIMEOUT = 600
 TWOPI = 2 * math.pi
